@@ -125,7 +125,8 @@ pub fn run_once<S: Scenario + ?Sized>(sc: &S, prefix: &[u32]) -> RunResult {
             if p.downcast_ref::<MachineryError>().is_some() {
                 return RunResult::Machinery(msg);
             }
-            if loc.contains("/repo/") {
+            let scratch = std::env::var("VERIF_REPO").ok();
+            if loc.contains("/repo/") || scratch.map(|r| loc.starts_with(&r)).unwrap_or(false) {
                 RunResult::SubjectPanic(loc, msg)
             } else {
                 RunResult::Machinery(format!("harness panic at {loc}: {msg}"))
